@@ -162,6 +162,39 @@ class CardMonitor(Monitor):
         self.prev = self.snap(st)
 
 
+class DuplicateNamer(Monitor):
+    """Fault duplicate_named: at a dealing point the dealer asks - with warnings as errors, the mode in which the engine
+    refuses cards it does not recommend - for the SAME dealable card twice in one deal.  A yes would put two copies of a
+    known card in play."""
+
+    def on_quiescent(self, world):
+        st = world.state
+        ch = world.ch
+        if not st.status or not ch.chance('dup.try', 1, 12):
+            return
+        import warnings
+        target = None
+        if st.can_deal_hole():
+            j = st.hole_dealee_index
+            if len(st.hole_dealing_statuses[j]) >= 2:
+                target = ('can_deal_hole', 'deal_hole')
+        elif st.can_deal_board() and (st.board_dealing_count or 0) >= 2:
+            target = ('can_deal_board', 'deal_board')
+        if target is None:
+            return
+        pool = sorted(st.get_dealable_cards(2), key=repr)
+        if not pool:
+            return
+        c = pool[ch.pick('dup.card', len(pool))]
+        arg = repr(c) + repr(c)
+        world.ctx.fault('duplicate_named')
+        with warnings.catch_warnings():
+            warnings.simplefilter('error')
+            if getattr(st, target[0])(arg):
+                raise Violation('C06.duplicate_named', f'{target[1]}({arg!r}) - the same card twice in one deal - is accepted with '
+                                f'warnings as errors: two copies of {c!r} would be in play', rule='duplicate_named')
+
+
 def replenish_refused(world, crash):
     """An engine-chosen burn or deal was refused for lack of cards although deck + burns + muck + discards hold
     enough cards that are not in play: the deck was not replenished when it ran out."""
@@ -211,7 +244,7 @@ def run(ch, ctx):
     mon = CardMonitor()
     world = None
     try:
-        world = World(ch, ctx, cfg, [mon], run_key=run_key_of(ch), dealer=dealer,
+        world = World(ch, ctx, cfg, [mon, DuplicateNamer()], run_key=run_key_of(ch), dealer=dealer,
                       profile=ch.choice('c06.profile', ('passive', 'passive', 'balanced')), muck_num=1)
         if exhaust and family_draw:
             pass
